@@ -50,17 +50,18 @@ const (
 
 // Program is the loaded, type-checked, SSA-built view of a repository tree.
 type Program struct {
-	Repo    string
-	Fset    *token.FileSet
-	Pkgs    map[string]*packages.Package // HIDI packages by import path
-	All     []*packages.Package
-	SSA     *ssa.Program
-	SSAPkgs map[string]*ssa.Package
-	Funcs   []*ssa.Function // all HIDI-owned source functions (incl. anonymous, instantiations)
-	pure    map[*ssa.Function]bool
-	cg      *callgraph.Graph
-	chaCg   *callgraph.Graph
-	isCtl   bool
+	Repo        string
+	Fset        *token.FileSet
+	Pkgs        map[string]*packages.Package // HIDI packages by import path
+	All         []*packages.Package
+	SSA         *ssa.Program
+	SSAPkgs     map[string]*ssa.Package
+	Funcs       []*ssa.Function // all HIDI-owned source functions (incl. anonymous, instantiations)
+	pure        map[*ssa.Function]bool
+	cg          *callgraph.Graph
+	chaCg       *callgraph.Graph
+	siteTargets map[ssa.CallInstruction][]*ssa.Function
+	isCtl       bool
 }
 
 func goEnv() []string {
@@ -488,4 +489,20 @@ func (p *Program) AnyPkg(path string) *packages.Package {
 		visit(pk)
 	}
 	return found
+}
+
+// InvokeTargets: the functions an interface method call can dispatch to according to the VTA call graph.
+func (p *Program) InvokeTargets(site ssa.CallInstruction) []*ssa.Function {
+	if p.siteTargets == nil {
+		p.siteTargets = map[ssa.CallInstruction][]*ssa.Function{}
+		g := p.CallGraph()
+		for _, n := range g.Nodes {
+			for _, e := range n.Out {
+				if e.Site != nil && e.Site.Common().IsInvoke() && e.Callee != nil && e.Callee.Func != nil {
+					p.siteTargets[e.Site] = append(p.siteTargets[e.Site], e.Callee.Func)
+				}
+			}
+		}
+	}
+	return p.siteTargets[site]
 }
